@@ -100,7 +100,7 @@ def _run(spec, prop, tier, seed, replay, wd):
         drange = entry[3] if len(entry) > 3 else "WholeRange"
         sub = os.path.join(wd, "exh_" + docs_name + f"_{smax}")
         os.makedirs(sub)
-        ex = E.exhaustive(prop, docs_name, smin, smax, spec["invariants"], sub, safes=spec.get("safes", "{TRUE}"), doc_range=drange)
+        ex = E.exhaustive(prop, docs_name, smin, smax, spec["invariants"], sub, safes=spec.get("safes", "{TRUE}"), doc_range=drange, timeout=7200 if tier == "thorough" else 1500)
         if ex["violated"]:
             cex = ex["cex"]
             shown = ("\n".join("---\n" + S.render_doc(d) for d in cex["docs"]) + "\nmodel: " + json.dumps(cex["x"])) if cex else ex["raw"]["out"][-3000:]
